@@ -214,7 +214,7 @@ def _write_evidence(path, prop, tier, seed, ctx, rule_mod, t0, failed=(), new=()
                     'keys that matched at least one construct in the current tree',
             'samples': samples or [{'note': 'no obligation evaluated'}],
             'checker_cmd': '/venv/bin/python /verif/vcheck %s%s' % (prop, ' --thorough' if tier == 'thorough' else ''),
-            'trusted_base': ['CPython ast module', '/verif/sa extractor (interp.py, hdl.py) and its model of the '
+            'trusted_base': ['CPython ast module', '/verif/sa/alpha.py (locals renamed w.r.t. sa/locals_ref.json are renamed back: a collision-free alpha-conversion)', '/verif/sa extractor (interp.py, hdl.py) and its model of the '
                              'Amaranth DSL (last assignment wins, If/Elif/Else, Switch/Case, FSM)',
                              'spec constants quoted in /verif/sa/rules/%s.py' % prop],
             'classes_analysed': sorted(ctx.classes) if ctx else [],
@@ -230,6 +230,9 @@ def _write_evidence(path, prop, tier, seed, ctx, rule_mod, t0, failed=(), new=()
             'known_findings_hit': list(known_hit),
             'new_violations': [o.key for o in new],
             'notes': ctx.notes if ctx else [],
+            'local_names_alpha_renamed': [
+                {'file': rel, 'function': qual, 'renamed_to_reference_name': ren}
+                for rel, qual, ren in (ctx.index.alpha_renames if ctx else []) if rel in set(ctx.files)],
             'exhaustive': False,
         },
         'assumptions': ['Amaranth semantics as documented (a later statement overrides an earlier one; FSM initial '
